@@ -441,7 +441,8 @@ ADDENDA = {
     "C09": (INT64 % ("C09_int64", "C09_int64_wraps: Add(10) on a cue ending at MaxInt64-5") +
             " Composition: two shifts in the same direction equal one shift by the sum (C09_compose_back for every list with start<=end, "
             "removal and clamping included; C09_compose_forward and C09_zero_shift for cues on the timeline); opposite signs do not "
-            "compose (C09_compose_mixed_differs, computed).", ""),
+            "compose (C09_compose_mixed_differs, computed). Order: a start-ordered list stays start-ordered after any shift, so a following "
+            "Order is a no-op (C09_preserves_order, C09_then_order; no start<=end hypothesis).", ""),
     "C10": (INT64 % ("C10_int64", "C10_int64_diverges: Fragment(2^62) on [0, MaxInt64) never terminates - the fuelled model returns None for every fuel - and C10_piece_count bounds the pieces by (end-start)/f + 2") +
             " C10_idempotent: a second Fragment with the same period changes nothing.", ""),
     "C11": (" C11_inverse_any drops the start<end hypothesis of the inverse law (the property has none); Unfragment, Order and Merge "
